@@ -14,6 +14,7 @@ class Harness:
     conf_every = 53
     conf_first = 150
     cap = 1_500_000
+    time_cap = None        # seconds per configuration; default from VERIF_TIER (quick 150 s, thorough 900 s)
     live_queries = ()      # tuples (rule, must_mask, forbid_mask, fairness_masks, doc)
     special_overrides = None
 
@@ -101,7 +102,15 @@ class Explorer:
         conf_every, conf_first = H.conf_every, H.conf_first
         cap = H.cap
         rot = self.seed
+        import os as _os
+        tcap = H.time_cap or (900 if _os.environ.get("VERIF_TIER_EFFECTIVE") == "thorough" else 150)
+        npop = 0
         while front:
+            npop += 1
+            if not (npop & 1023) and time.time() - t0 > tcap:
+                res.exhaustive = False
+                res.cap = f"time>{tcap}s"
+                break
             sid, st = front.popleft()
             d, env = st
             chs = H.choices(env)
